@@ -36,7 +36,6 @@ Proof.
   apply orb_false_iff in En. destruct En as [En1 En2]. apply mem_false in En1. apply mem_false in En2.
   destruct (negb (Nat.eqb (length gb) (length gbkinds)) || negb (nodupb gb)) eqn:El; [discriminate|].
   apply orb_false_iff in El. destruct El as [El _]. apply negb_false_iff in El. apply Nat.eqb_eq in El.
-  destruct (existsb _ (m_columns m)); [discriminate|].
   set (t := next_id (tids m)) in *. set (c0 := next_id (cids m)) in *.
   set (gf := fun p : Z * Z * Z => match find_column m (snd (fst p)) with
              | Some sc => mkC (fst (fst p)) t (snd p) 0 (c_visible sc) (c_id sc) [] (c_reft sc)
